@@ -200,7 +200,28 @@ def drive(rec):
                         rows, o = rows_from_positions(cr, n, d.b.atomic_numbers, d.b.positions)
                         k, o2 = d2_of(d.separation)
                         off |= o or o2 or (d.a is not uniq[a] and not np.allclose(d.a.positions, uniq[a].positions))
-                        out["pairs"].append({"a": a + 1, "cls": int(cls) + 1, "d2": k, "atoms": [{"p": r["p"], "z": r["z"]} for r in rows]})
+                        # the transform attached to the dimer: a proper rotation, and as good a fit of the one molecule onto the
+                        # other as any (reference: this harness's own SVD fit; residuals in 1e-4 A)
+                        tr = getattr(d, "transform_ab", None)
+                        fit = {"has": False, "orth": True, "res": 0, "ref": 0}
+                        pa_ = np.asarray(d.a.positions, dtype=float)
+                        pb_ = np.asarray(d.b.positions, dtype=float)
+                        if tr is not None and pa_.shape == pb_.shape and len(pa_) >= 1:
+                            R_ = np.asarray(tr[0], dtype=float)
+                            pa_ = pa_ - pa_.mean(axis=0)
+                            pb_ = pb_ - pb_.mean(axis=0)
+                            H_ = pb_.T @ pa_
+                            U_, S_, Vt_ = np.linalg.svd(H_)
+                            dsg = np.sign(np.linalg.det(U_ @ Vt_)) or 1.0
+                            Ropt = U_ @ np.diag([1.0, 1.0, dsg]) @ Vt_
+                            ref = float(np.sqrt(np.mean(np.sum((pb_ @ Ropt - pa_) ** 2, axis=1))))
+                            cands = [pb_ @ R_ - pa_, pb_ @ R_.T - pa_]
+                            res = min(float(np.sqrt(np.mean(np.sum(c_ ** 2, axis=1)))) for c_ in cands)
+                            fit = {"has": True, "orth": bool(R_.shape == (3, 3) and np.allclose(R_ @ R_.T, np.eye(3), atol=1e-8)
+                                                             and abs(np.linalg.det(R_) - 1.0) < 1e-8),
+                                   "res": int(round(min(res, 1e4) * 1e4)), "ref": int(round(min(ref, 1e4) * 1e4))}
+                        out["pairs"].append({"a": a + 1, "cls": int(cls) + 1, "d2": k, "atoms": [{"p": r["p"], "z": r["z"]} for r in rows],
+                                             "fit": fit})
                 for d in unique_dimers:
                     rows, o = rows_from_positions(cr, n, d.b.atomic_numbers, d.b.positions)
                     off |= o
